@@ -278,6 +278,12 @@ func negotiateFeatures(ctx context.Context, s *Session, first, ws bool, features
 		mask, rw, err = data.feature.Negotiate(ctx, s, s.features[data.feature.Name.Space])
 		s.in.d = oldDecoder
 		if err == nil {
+			// Reads and writes on transports without deadlines cannot be
+			// interrupted, but a context that ended while the feature was being
+			// negotiated must not go unnoticed.
+			err = ctx.Err()
+		}
+		if err == nil {
 			s.state |= mask
 		}
 		s.negotiated[data.feature.Name.Space] = struct{}{}
